@@ -220,6 +220,24 @@ def main(run):
                 lz = [t for k, t in toks if k == "float" and re.match(r"0\d", t)]
                 run.add(Finding("C15:nonwf:leadingzero" if lz else "C15:fragment", "fragment %r float%s: got %r, token-level specification %r" % (s, mode, got, exp),
                                 dict(text=s, mode=mode, got=got, expected=exp)))
+    # 2b. the conversion is a function of the text alone: two different sources that share the CRC-32 tag the library cache
+    # uses to NAME sources, converted one after the other at each precision (each must get its own conversion)
+    SAME_TAG = [("double f(double x) { return 2879978.5*x + k3; }", "double f(double x) { return 4006207.5*x + k2; }"),
+                ("double f(double x) { return 2879977.5*x + k2; }", "double f(double x) { return 4006208.5*x + k3; }")]
+    from sasmodels import generate as _g
+    for a_, b_ in SAME_TAG:
+        if _g.tag_source(a_) != _g.tag_source(b_):
+            run.notes.append("the same-tag corpus pair no longer collides under generate.tag_source (the tag function changed)")
+        for mode in ("32", "128", "64"):
+            for s_ in (a_, b_):
+                evals += 1
+                got = impl(mode, s_)
+                items.append((mode, s_)); refs.append(got); metas.append(dict(kind="fragment", text=s_, mode=mode, note="one of two sources with the same CRC-32 tag"))
+                exp = "".join(t for _, t in expected_tokens(tokens(s_), *TYPE[mode]))
+                stats["same_tag_sources"] = stats.get("same_tag_sources", 0) + 1
+                if got != exp:
+                    run.add(Finding("C15:same-tag", "source %r (float%s), converted right after another source with the same CRC-32 tag: got %r, token-level specification %r" % (s_, mode, got, exp),
+                                    dict(text=s_, mode=mode, got=got, expected=exp, converted_before=a_ if s_ == b_ else None)))
     # 3. exhaustive short strings over a 16-symbol alphabet (double is one symbol)
     L = 3 if not thorough else 5
     shorts = []
